@@ -85,6 +85,13 @@ def option_table() -> List[Dict[str, Any]]:
     return out
 
 
+def short_keys() -> set:
+    """One-letter names of the real parser's short flags (-v -> v): not config keys, so unknown when used as one."""
+    from pydoctor.options import get_parser
+    p = get_parser()
+    return {s[1] for a in p._actions for s in a.option_strings if len(s) == 2 and s[0] in p.prefix_chars and s[1] not in p.prefix_chars}
+
+
 def concrete(o: Dict[str, Any], slot: int) -> str:
     """Slot 1 = representative, slot 2 = adversarial value of option o, as text."""
     d, x = o["_"]["dest"], o["_"]
@@ -155,6 +162,8 @@ def file_text(o: Dict[str, Any], scn: Dict[str, Any]) -> str:
         lines.append(f"{key} = {rhs}" if not rhs.startswith("\n") else f"{key} ={rhs}")
     if scn["unknown"] == "fresh":
         lines.append("no-such-option = 1" if fmt != "toml" else 'no-such-option = "1"')
+    elif len(scn["unknown"]) == 1:                    # a short command-line flag used as a key (v, q, W ...)
+        lines.append(f"{scn['unknown']} = 1" if fmt != "toml" else f'{scn["unknown"]} = "1"')
     elif scn["unknown"] == "dest":
         lines.append(f"{o['_']['dest']} = 1" if fmt != "toml" else f'{o["_"]["dest"]} = "1"')
     return "\n".join(lines) + "\n"
@@ -344,6 +353,17 @@ def kf_toml_leading_escaped_quote(w: Dict[str, Any]) -> bool:
                                   (t.startswith('""') and w.get("observed") == t[2:-2]))
 
 
+def kf_ini_percent_interpolation(w: Dict[str, Any]) -> bool:
+    """Python twin of ConfigQuote.tla KF_IniPercent: a % in an INI value goes through configparser's interpolation: a
+    lone % aborts the run with configparser's message, %% is read back as %."""
+    t = w.get("text") or ""
+    if w.get("kind") != "quote" or w.get("fmt") not in ("cfg", "ini") or "%" not in t:
+        return False
+    if w.get("err"):
+        return "must be followed by" in w["err"]
+    return w.get("observed") == t.replace("%%", "%")
+
+
 def kf_empty_triple_quoted(w: Dict[str, Any]) -> bool:
     """Python twin of ConfigQuote.tla KF_EmptyTripleQuoted: '''''' / \"\"\"\"\"\" (the empty text) is not recognised as
     quoted and comes back as the six quote characters."""
@@ -351,11 +371,125 @@ def kf_empty_triple_quoted(w: Dict[str, Any]) -> bool:
         and w.get("unquote_str") == w.get("written") and w.get("observed") in (w.get("written"), "")
 
 
+# ------------------------------------------------------------- part 0: histories of parses in one process
+HIST_INPUTS: Dict[str, Tuple[List[str], Dict[str, str]]] = {
+    "none": ([], {}),
+    "pkgToml": ([], {"pyproject.toml": '[tool.pydoctor]\nadd-package = ["dir1"]\n'}),
+    "pkgCli": (["--add-package=dir1"], {}),
+    "pkgCfg": ([], {"setup.cfg": "[tool:pydoctor]\nadd-package = dir2\n"}),
+    "srcPos": (["src1"], {}),
+    "privIni": ([], {"pydoctor.ini": "[pydoctor]\nprivacy =\n    PUBLIC:a\n    hidden:b*\n"}),
+    "nameCfg": ([], {"setup.cfg": "[tool:pydoctor]\nproject-name = FromCfg\n"}),
+    "nameTomlComment": ([], {"pyproject.toml": '[tool.pydoctor]\nproject-name = "Demo"  # comment\n'}),
+    "verboseToml": ([], {"pyproject.toml": "[tool.pydoctor]\nverbose = 2\n"}),
+}
+HIST_PKGS = {"pkgToml": ["dir1"], "pkgCli": ["dir1"], "pkgCfg": ["dir2"]}
+HIST_NAME = {"nameCfg": "FromCfg", "nameTomlComment": "Demo"}
+HIST_CFG = """SPECIFICATION Spec
+CONSTANTS Inputs = {inputs}
+          MaxLen = {maxlen}
+          Memory = "{memory}"
+CONSTRAINT Emit
+INVARIANT Independent
+INVARIANT NoMemory
+"""
+
+
+def run_history(run: Runner, hist: Sequence[str]) -> List[Dict[str, Any]]:
+    """The parses of `hist`, one after the other, in ONE fresh child process forked from the (still clean) harness."""
+    import attr
+    rd, wr = os.pipe()
+    pid = os.fork()
+    if pid == 0:                                        # child: never returns
+        try:
+            os.close(rd)
+            res = []
+            for name in hist:
+                argv, files = HIST_INPUTS[name]
+                got = run.run(argv, files)
+                fields = {} if got["exit"] else {k: repr(v) for k, v in attr.asdict(got["options"], recurse=False).items()}
+                sp = [] if got["exit"] else [p.name for p in got["options"].sourcepath if p.name != "src1"]
+                res.append({"i": name, "exit": got["exit"], "warn": got["warn"], "fields": fields, "pkgs": sp,
+                            "name": "-" if got["exit"] or got["options"].projectname is None else got["options"].projectname})
+            with os.fdopen(wr, "w") as f:
+                json.dump(res, f)
+        finally:
+            os._exit(0)
+    os.close(wr)
+    with os.fdopen(rd) as f:
+        data = f.read()
+    os.waitpid(pid, 0)
+    if not data:
+        raise MachineryError(f"the child process running history {list(hist)} returned nothing")
+    return json.loads(data)  # type: ignore[no-any-return]
+
+
+def judge_history(hist: Sequence[str], steps: List[Dict[str, Any]], fresh: Dict[str, Dict[str, Any]]) -> List[Dict[str, Any]]:
+    """ConfigHistory.tla's Independent on the OBSERVED steps + equality with the same parse in a fresh process."""
+    bad = []
+    for k, st in enumerate(steps):
+        i = st["i"]
+        if st["exit"] or st["pkgs"] != HIST_PKGS.get(i, []) or st["name"] != HIST_NAME.get(i, "-"):
+            bad.append({"step": k, "input": i, "clause": "Independent", "pkgs": st["pkgs"], "name": st["name"], "exit": st["exit"]})
+        elif st["fields"] != fresh[i]["fields"] or st["warn"] != fresh[i]["warn"]:
+            diff = {f: [st["fields"].get(f, "")[:100], v[:100]] for f, v in fresh[i]["fields"].items() if st["fields"].get(f) != v}
+            bad.append({"step": k, "input": i, "clause": "SameAsFreshProcess", "differs": diff})
+    return bad
+
+
+def part_history(ctx: Ctx) -> int:
+    """Must run before anything else parses in this process: the children are forked from a clean parent."""
+    maxlen = 2 if ctx.quick else 3
+    r = ctx.tlc("ConfigHistory", HIST_CFG.format(inputs=tla(set(HIST_INPUTS)), maxlen=maxlen, memory="none"),
+                workers=1, timeout=600)
+    if r.errors or r.violated or r.rc != 0:
+        raise MachineryError(f"TLC failed on ConfigHistory: {r.errors[:3]} {r.violated} rc={r.rc}")
+    uniq = {json.dumps(x["hist"]): x for x in r.printed if isinstance(x, dict) and "hist" in x}
+    if len(uniq) != r.distinct - 1:
+        raise MachineryError(f"TLC printed {len(uniq)} histories for {r.distinct - 1} states")
+    run = Runner(ctx)
+    fresh = {i: run_history(run, [i])[0] for i in HIST_INPUTS}
+    nontrivial = 0
+    for key in sorted(uniq):
+        rec = uniq[key]
+        steps = run_history(run, rec["hist"])
+        ctx.traces += 1
+        nontrivial += len(rec["hist"]) > 1
+        bad = judge_history(rec["hist"], steps, fresh)
+        model = [[o["i"], o["pkgs"], o["name"]] for o in rec["out"]]
+        real = [[st["i"], st["pkgs"], st["name"]] for st in steps]
+        if bad:
+            ctx.violation({"invariant": "ParseIndependent", "kind": "history", "history": rec["hist"],
+                           "inputs": {i: {"argv": HIST_INPUTS[i][0], "files": HIST_INPUTS[i][1]} for i in rec["hist"]},
+                           "failed": bad, "expected": model, "observed": real,
+                           "key": f"history:{rec['hist']}:{[b['clause'] for b in bad]}"})
+        elif model != real:
+            ctx.drift_note({"kind": "history", "history": rec["hist"], "spec": model, "real": real})
+        if len(rec["hist"]) == maxlen and rec["hist"][0] == "pkgToml" and rec["hist"][-1] == "none":
+            ctx.sample({"kind": "history", "parses_in_one_process": rec["hist"], "sourcepath_names": [st["pkgs"] for st in steps]}, limit=8)
+    ctx.extra["history"] = {"inputs": sorted(HIST_INPUTS), "max_len": maxlen, "histories": len(uniq),
+                            "each_run_in_a_forked_child": True}
+    # design-level negative controls: a process that remembers must violate Independent in the model
+    nc = {}
+    for memory in ("packages", "format"):
+        r2 = ctx.tlc("ConfigHistory", HIST_CFG.format(inputs=tla(set(HIST_INPUTS)), maxlen=2, memory=memory).replace("CONSTRAINT Emit\n", ""),
+                     workers=1, timeout=600, count=False)
+        nc[memory] = "Independent" in r2.violated
+    # and the judge must refuse an observation with a leaked package
+    leaked = [dict(fresh["pkgToml"]), dict(fresh["none"], pkgs=["dir1"])]
+    nc["judge"] = bool(judge_history(["pkgToml", "none"], leaked, fresh)) and not judge_history(["pkgToml", "none"], [fresh["pkgToml"], fresh["none"]], fresh)
+    ctx.extra.setdefault("negative_control", {})["history"] = nc
+    if not all(nc.values()):
+        raise MachineryError(f"negative control (histories) failed: {nc}")
+    return nontrivial
+
+
 # -------------------------------------------------------------------------------- part 1: the merge
 MERGE_CFG = """SPECIFICATION Spec
 CONSTANTS Options <- MC_Options
           Formats = {formats}
           Vias = {vias}
+          ShortKeys = {shorts}
 CONSTRAINT Emit
 INVARIANT ImplIsRef
 """
@@ -374,7 +508,8 @@ def part_merge(ctx: Ctx, rng: random.Random) -> int:
         "---- MODULE MC_Config ----\n\\* generated from pydoctor.options.get_parser()._actions by harness/checks/c20.py\n"
         f"EXTENDS Config\nMC_Options == {lit}\n====\n")
     r = ctx.tlc("MC_Config", MERGE_CFG.format(formats=tla({"toml", "cfg", "ini"}),
-                                              vias=tla({"default"} if ctx.quick else {"default", "config"})), workers="auto", timeout=900)
+                                              vias=tla({"default"} if ctx.quick else {"default", "config"}),
+                                              shorts=tla(short_keys())), workers="auto", timeout=900)
     if r.errors or (r.rc != 0 and not r.violated):
         raise MachineryError(f"TLC failed on Config: {r.errors[:3]} rc={r.rc}\n" + "\n".join(r.out.splitlines()[-25:]))
     if r.violated:
@@ -421,10 +556,15 @@ def part_merge(ctx: Ctx, rng: random.Random) -> int:
     o = by_key["project-name"]
     scn = {"opt": 0, "key": "project-name", "kind": "store", "fmt": "toml", "via": "default", "file": {"has": True, "v": [1]},
            "fstyle": "string", "cli": {"has": False, "v": []}, "spell": "none", "unknown": "none"}
-    good = evaluate(run, o, scn, {"val": [1], "warn": False, "abort": False})["failed"]
-    bad = evaluate(run, o, scn, {"val": [2], "warn": False, "abort": False})["failed"]
+    e_good = evaluate(run, o, scn, {"val": [1], "warn": False, "abort": False})
+    e_bad = evaluate(run, o, scn, {"val": [2], "warn": False, "abort": False})
     bad2 = evaluate(run, o, scn, {"val": [1], "warn": True, "abort": False})["failed"]
-    okc = good == [] and "SameAsCommandLine" in bad and "UnknownKeyWarned" in bad2
+    good, bad = e_good["failed"], e_bad["failed"]
+    # only the judge's ability to reject is machinery: the wrong expectation must be refused BECAUSE OF projectname;
+    # the right one must not be (whether it is refused for another attribute is an observation about the code - the
+    # scenario is among the enumerated ones - never an exit 2)
+    okc = "projectname" in e_bad["observed"].get("differs", {}) and "projectname" not in e_good["observed"].get("differs", {}) \
+        and "UnknownKeyWarned" in bad2 and "UnknownKeyWarned" not in good
     ctx.extra.setdefault("negative_control", {})["wrong_expectation_rejected"] = okc
     if not okc:
         raise MachineryError(f"negative control (merge) failed: {good} {bad} {bad2}")
@@ -432,7 +572,7 @@ def part_merge(ctx: Ctx, rng: random.Random) -> int:
 
 
 # ----------------------------------------------------------------------------- part 2: quoting identity
-QALPHA = ["a", " ", "'", '"', "\\", "#", "=", "[", "]", "\n"]
+QALPHA = ["a", " ", "'", '"', "\\", "#", "=", "[", "]", "%", "\n"]
 QSTYLES = [("cfg", "single"), ("cfg", "double"), ("cfg", "plain"), ("ini", "single"), ("ini", "double"), ("ini", "plain"),
            ("cfg", "tsingle"), ("cfg", "tdouble"), ("ini", "tsingle"), ("ini", "tdouble"),
            ("toml", "basic"), ("toml", "literal")]
@@ -486,7 +626,7 @@ def read_back(run: Runner, parser: Any, fmt: str, written: str, e2e: bool) -> Tu
     if e2e:
         got = run.run([], {FILES[fmt][0]: text})
         if got["exit"]:
-            return None, "exit: " + str(got.get("stderr", ""))[-120:], tv
+            return None, "exit: " + str(got.get("stderr", ""))[-300:], tv
         v = got["options"].projectname
     else:
         try:
@@ -494,7 +634,7 @@ def read_back(run: Runner, parser: Any, fmt: str, written: str, e2e: bool) -> Tu
                 warnings.simplefilter("ignore")
                 v = parser._config_file_parser.parse(io.StringIO(text)).get("project-name")
         except Exception as e:
-            return None, f"{type(e).__name__}: {e}"[:120], tv
+            return None, f"{type(e).__name__}: {e}"[:600], tv
     if not isinstance(v, str):
         return None, f"read back as {type(v).__name__}: {v!r}"[:120], tv
     return v, "", tv
@@ -599,6 +739,8 @@ def run(ctx: Ctx) -> int:
     ctx.register_matcher("ini-file-read-as-toml", kf_ini_read_as_toml)
     ctx.register_matcher("toml-leading-escaped-quote", kf_toml_leading_escaped_quote)
     ctx.register_matcher("empty-triple-quoted", kf_empty_triple_quoted)
+    ctx.register_matcher("ini-percent-interpolation", kf_ini_percent_interpolation)
+    n0 = part_history(ctx)              # first: its child processes are forked from a parent that has parsed nothing
     n1 = part_merge(ctx, rng)
     n2 = part_quote(ctx, rng)
     ctx.exhaustive = True
@@ -608,7 +750,7 @@ def run(ctx: Ctx) -> int:
         "flags in files are `true`; a key given on the command line replaces the file's list (repeatable options too); "
         "'accumulate in order' is about repetitions within one source",
         "-h, -V, -c/--config and the positional SOURCEPATH cannot be set from a file and are not options in the sense "
-        "of the property; '%' (configparser interpolation) is outside the quoting alphabet",
+        "of the property",
         "the regular expressions of is_quoted are not modelled; the spec contributes the enumeration, the encoding and "
         "the identity oracle",
     ]
@@ -617,7 +759,7 @@ def run(ctx: Ctx) -> int:
              "TLC from Config.tla over the real parser's option list and executed through Options.from_args in a "
              "directory holding the file; (string, format, quoting style) rows read back by the real parsers and judged "
              "by TLC (ConfigQuote.tla); non-trivial = scenario with a value in the file, every quoting row",
-        distinct_nontrivial=n1 + n2)
+        distinct_nontrivial=n0 + n1 + n2)
 
 
 # ------------------------------------------------------------------------------------------- replay
@@ -628,6 +770,10 @@ def replay(ctx: Ctx, path: str) -> int:
         o = {x["key"]: x for x in option_table()}[w["scn"]["key"]]
         out = evaluate(Runner(ctx), o, w["scn"], w["expected"])
         bad = out["failed"] and {"failed": out["failed"], "observed": out["observed"]}
+    elif w.get("kind") == "history":
+        run = Runner(ctx)
+        fresh = {i: run_history(run, [i])[0] for i in set(w["history"])}
+        bad = judge_history(w["history"], run_history(run, w["history"]), fresh)
     elif w.get("kind") == "quote":
         from pydoctor.options import get_parser
         from pydoctor._configparser import unquote_str
